@@ -180,6 +180,19 @@ def _append_part(run, jobs: Jobs, rep: Reporter, chunks: int, by_size: Dict[int,
                      {"kind": r["kind"], "writers": r["nw"], "records": r["nr"], "lines": len(r["lines"]), "bad": bad},
                      f"{r['nw']} real {r['kind']} x {r['nr']} records: the file violates {verdict} ({len(r['lines'])} lines, first bad {bad})",
                      {"family": "append.free", "kind": r["kind"], "nw": r["nw"], "nr": r["nr"], "seed": r["seed"]})
+    # one long capture of a single writer (sizes around powers of two and well beyond)
+    for nr in ([1024, 1025, 5000] if q else [255, 256, 1023, 1024, 1025, 4096, 4097, 65536, 70000]):
+        got = A.long_capture_run(logdir, f"long{nr}", nr)
+        run.traces += 1
+        run.case(("append.long_capture", nr))
+        if got == list(range(1, nr + 1)):
+            run.ok("PerWriterOrder.long_capture")
+        else:
+            k = next((i for i, x in enumerate(got) if x != i + 1), len(got))
+            clause = "NoLossNoDuplication" if sorted(got) != list(range(1, nr + 1)) else "PerWriterOrder"
+            rep.fail(clause, {"cause": "long-mux-capture"}, {"records": nr, "lines": len(got), "first_bad_line": k, "head": got[:5]},
+                     f"one LogMux capture of {nr} records: file line {k} holds record {got[k] if k < len(got) else None} (head of file {got[:4]}, {len(got)} lines)",
+                     {"family": "append.long", "nr": nr})
     run.sample({"family": "append.free", "kind": results[0]["kind"], "writers": results[0]["nw"], "records_per_writer": results[0]["nr"],
                 "first_lines": results[0]["lines"][:8], "max_record_bytes": 262144 * 2})
     # ---- (M) + (S->C): every complete interleaving of the write calls, forced on the real appender ----
@@ -359,10 +372,16 @@ def _stager_part(run, jobs: Jobs, rep: Reporter) -> None:
 # part D: rotation / compaction
 # ------------------------------------------------------------------------------------------------
 def rotate_configs(q: bool) -> List[Dict[str, int]]:
+    # the last entries: retention windows whose suffixes have two digits (.9 / .10 / .11 sort differently as text and as
+    # numbers); their initial directories are the dense prefixes and the one-gap directories only (InitAll = FALSE)
     if q:
-        return [{"N": 1, "Extra": 1, "MaxOps": 3}, {"N": 2, "Extra": 1, "MaxOps": 3}, {"N": 3, "Extra": 1, "MaxOps": 3}]
-    return [{"N": 1, "Extra": 2, "MaxOps": 4}, {"N": 2, "Extra": 2, "MaxOps": 4}, {"N": 3, "Extra": 2, "MaxOps": 3},
-            {"N": 3, "Extra": 1, "MaxOps": 4}]
+        out = [{"N": 1, "Extra": 1, "MaxOps": 3}, {"N": 2, "Extra": 1, "MaxOps": 3}, {"N": 3, "Extra": 1, "MaxOps": 3}]
+        big = [{"N": 11, "Extra": 1, "MaxOps": 2}]
+    else:
+        out = [{"N": 1, "Extra": 2, "MaxOps": 4}, {"N": 2, "Extra": 2, "MaxOps": 4}, {"N": 3, "Extra": 2, "MaxOps": 3},
+               {"N": 3, "Extra": 1, "MaxOps": 4}]
+        big = [{"N": 10, "Extra": 1, "MaxOps": 2}, {"N": 11, "Extra": 1, "MaxOps": 3}, {"N": 12, "Extra": 0, "MaxOps": 2}]
+    return [dict(c, InitAll=True) for c in out] + [dict(c, InitAll=False) for c in big]
 
 
 ROTATE_INVS = ["Ordered", "RotationKeepsNewestN", "RotationLosesOnlyOldest", "BeyondWindowUntouched",
